@@ -7,6 +7,7 @@ CONSTANTS
   MaxOps = 2
   MaxInv = 3
   RecordBefore = TRUE
+  GuardNoInput = TRUE
 INVARIANTS TypeOK FullOnlyFromSuccess SkipMeansUpToDate SkipComplete NoInputNoRecord
 PROPERTIES RecIndependent
 CHECK_DEADLOCK FALSE
